@@ -40,7 +40,6 @@
 (*   CLogAlh     OpenWith: cAlh of the LAST commit-log entry = Alh of the  *)
 (*               record (no other path reads cAlh)                         *)
 (*   PrevAlh     tx_reader.go Read: from the second tx on, prevAlh chains  *)
-(*   KeyLookup   ReadTxEntry: the requested key must be in the record      *)
 (*   ValueHash   immustore.go readValueAt: n = vLen and sha256 = hVal;     *)
 (*               ReadValue and valueRef.Resolve return before it when      *)
 (*               vLen = 0 (FixVLenZero)                                    *)
@@ -58,7 +57,9 @@
 (*     by the tables below.  Invariant DetectedOrInvisible.  With all Fix* *)
 (*     FALSE the model is the code as read; the cells that violate the     *)
 (*     invariant are candidates to examine on the real code (never         *)
-(*     verdicts); with all Fix* TRUE the invariant must hold.              *)
+(*     verdicts); with all Fix* TRUE (and AcceptLocators: vLen/vOff that   *)
+(*     are returned but not dereferenced are locators, not content) the    *)
+(*     invariant must hold.                                                *)
 (***************************************************************************)
 EXTENDS Naturals, Sequences, FiniteSets, TLC, Json, SequencesExt, FiniteSetsExt
 
@@ -66,7 +67,8 @@ CONSTANTS OutFile,        \* where the matrix is written ("" = do not write)
           Seed,           \* picks the class combination per field pair
           CfgNames,       \* configurations to enumerate (subset of AllCfgNames)
           MaxAlts,        \* 1 or 2 alterations in the state machine
-          FixVLenZero, FixTxBinding, FixMdBounds, FixVLogBound, FixExportEof
+          FixVLenZero, FixTxBinding, FixMdBounds, FixVLogBound, FixExportEof,
+          AcceptLocators  \* TRUE: vLen/vOff returned without dereference are locators, not committed content
 
 -----------------------------------------------------------------------------
 (* configurations: header version / value placement / number of value logs *)
@@ -77,7 +79,7 @@ Vals(c)  == IF c \in {"v1/plain/single", "v0/plain/single", "v1/plain/multi", "v
             ELSE IF c \in {"v1/emb/single", "v0/emb/single"} THEN "emb" ELSE "comp"
 Multi(c) == c \in {"v1/plain/multi", "v0/plain/multi", "v1/comp/multi", "v0/comp/multi"}
 
-Positions == {"last", "inner"}      \* is the altered tx the last committed one
+Positions == {"first", "last", "inner"}   \* the altered tx is tx 1 / the last committed tx / any other
 Shapes    == {"n1", "nN"}           \* the altered tx has one entry / several entries
 Paths     == <<"Open", "ReadTx", "ReadTxHeader", "ReadTxEntry", "ReadValue", "ExportTx", "TxReader", "Proof", "IndexRebuild">>
 PathSet   == {Paths[i] : i \in 1..Len(Paths)}
@@ -92,7 +94,8 @@ ClogFields   == <<"cTxOff", "cTxSize", "cAlh">>
 ValueFields  == <<"val", "valCLen", "valComp", "valEmb", "embLen">>
 FieldSeq == HeaderFields \o EntryFields \o TrailerFields \o ClogFields \o ValueFields
 Fields == {FieldSeq[i] : i \in 1..Len(FieldSeq)}
-FieldIdx(f) == CHOOSE i \in 1..Len(FieldSeq) : FieldSeq[i] = f
+FieldIdxTab == [f \in Fields |-> CHOOSE i \in 1..Len(FieldSeq) : FieldSeq[i] = f]    \* memo (constant, evaluated once)
+FieldIdx(f) == FieldIdxTab[f]
 
 \* hMdLenX is hMdLen of a header whose metadata holds an extra attribute (the outcome differs)
 V1Only == {"hMdLen", "hMdLenX", "hMdCode", "hMdTrunc", "hMdExtraLen", "hMdExtra", "eMdCode", "eMdExp"}
@@ -115,9 +118,13 @@ ValueBytes == {"val", "valCLen", "valComp", "valEmb"}
                existing value log / no existing value log; sign63: bit 63
      cTxOff    bit (somewhere that is not a record start) / retarget (start of another tx's record)
      eMdCode   bit / reorder (two payload-free attributes swapped: decodes to the same set)
+     valCLen, valComp (compressed record)  decSame: decodes to the same bytes (padding bits, bytes after the
+               end-of-stream marker, a longer length that still ends inside the file; decoder errors are ignored
+               by the code) / decEof: decodes short / decDiff: decodes to other bytes
      others    bit (one bit or several bits of the field: the value changes)                       *)
 Classes(c, f) ==
-  CASE f \in {"hMdLen", "hMdLenX", "hMdExtraLen", "nentries", "eMdLen", "kLen", "cTxSize", "valCLen", "embLen"} -> <<"up", "down", "zero">>
+  CASE f \in {"hMdLen", "hMdLenX", "hMdExtraLen", "nentries", "eMdLen", "kLen", "cTxSize", "embLen"} -> <<"up", "down", "zero">>
+    [] f \in {"valCLen", "valComp"} -> <<"decSame", "decEof", "decDiff">>
     [] f = "vLen" -> <<"upIn", "upOut", "down", "zero">>
     [] f = "vOff" -> IF Vals(c) = "emb" THEN <<"lowIn", "lowOut", "masked55", "vlogidOOR", "sign63">>
                      ELSE IF Multi(c) THEN <<"lowIn", "lowOut", "masked55", "vlogid0", "vlogidX", "vlogidOOR", "sign63">>
@@ -126,7 +133,8 @@ Classes(c, f) ==
     [] f = "eMdCode" -> <<"bit", "reorder">>
     [] OTHER -> <<"bit">>
 
-AllAlts(c) == UNION {{<<f, Classes(c, f)[k]>> : k \in 1..Len(Classes(c, f))} : f \in {g \in Fields : Present(c, g)}}
+AllAltsTab == [c \in AllCfgNames |-> UNION {{<<f, Classes(c, f)[k]>> : k \in 1..Len(Classes(c, f))} : f \in {g \in Fields : Present(c, g)}}]
+AllAlts(c) == AllAltsTab[c]
 
 \* compound alterations (several fields changed consistently, e.g. a misdirected write)
 Compounds == {<<"clogdup", "entry">>,       \* commit-log entry := a copy of another tx's entry (off, size, alh)
@@ -139,13 +147,13 @@ Inv(why) == [exp |-> "invisible", by |-> why]
 Unc(why) == [exp |-> "UNCOVERED", by |-> why]
 
 \* reasons (candidates are grouped by them)
-RLocator  == "locator-unauthenticated: vLen/vOff are covered by no digest; returned as read when the value is not dereferenced"
-RVLenZero == "vLen=0 returns the empty value before the hash check"
-ROverrun  == "tx-metadata extra attribute: length not checked against the buffer (parser overrun)"
-RBinding  == "no check binds the record found at cTxOff to the requested tx id"
-RVLogId   == "vLogID is used as a map key without a bounds check"
-REofN1    == "EOF from the value log is taken for a truncated value: exported without values"
-REofNN    == "EOF from the value log is taken for truncation: error returned with _valBsMux held"
+RLocator  == "locator-unauthenticated"      \* vLen/vOff are covered by no digest; returned as read when the value is not dereferenced
+RVLenZero == "vlen-zero-skips-hash-check"   \* vLen = 0 returns the empty value before the hash check
+ROverrun  == "txmd-extra-length-unchecked"  \* tx-metadata extra attribute: length not checked against the buffer (parser overrun)
+RBinding  == "record-not-bound-to-tx-id"    \* no check binds the record found at cTxOff to the requested tx id
+RVLogId   == "vlogid-unchecked-map-key"     \* vLogID is used as a map key without a bounds check
+REofN1    == "eof-taken-for-truncation:export-without-values"
+REofNN    == "eof-taken-for-truncation:error-with-valBsMux-held"
 
 (* stage 1: effect of an alteration on parsing the record (readHeader, readEntry*, buildAndValidateHtree) *)
 ParseEffect(c, f, cls) ==
@@ -159,7 +167,7 @@ ParseEffect(c, f, cls) ==
     [] f = "hMdCode" -> [k |-> "det", by |-> "TxMdParse|Alh"]
     [] f = "nentries" -> [k |-> "det", by |-> "HdrBounds|EntryBounds|EOF|Alh"]
     [] f = "eMdLen" -> [k |-> "det", by |-> "KvMdParse|EntryBounds|EOF|Alh"]
-    [] f = "eMdCode" -> IF cls = "reorder" THEN [k |-> "same", by |-> "decodes to the same attribute set"]
+    [] f = "eMdCode" -> IF cls = "reorder" THEN [k |-> "same", by |-> "same-decoded"]
                         ELSE [k |-> "det", by |-> "KvMdParse|Alh"]
     [] f = "kLen" -> [k |-> "det", by |-> "EntryBounds|EOF|Alh"]
     [] f \in Locators -> [k |-> "locator", by |-> RLocator]
@@ -167,7 +175,7 @@ ParseEffect(c, f, cls) ==
                        THEN (IF FixTxBinding THEN [k |-> "det", by |-> "TxIdBinding"] ELSE [k |-> "other", by |-> RBinding])
                        ELSE [k |-> "det", by |-> "HdrBounds|EOF|Alh"]
     [] f = "cTxSize" -> IF cls = "zero" THEN [k |-> "det", by |-> "ReaderSize"]
-                        ELSE [k |-> "same", by |-> "cTxSize is only the read-buffer size"]
+                        ELSE [k |-> "same", by |-> "buffer-size-only"]
     [] OTHER -> [k |-> "none", by |-> ""]
 
 RecordRead(path, pos) == path # "Open" \/ pos = "last"       \* Open parses only the last record
@@ -184,7 +192,7 @@ ReadResult(c, f, cls) ==
                         [] cls = "vlogidX" -> "eof"          \* the other log at that offset: EOF or other bytes
                         [] OTHER -> IF Multi(c) /\ ~FixVLogBound THEN "idpanic" ELSE "iderr")
     [] f \in {"val", "valEmb"} -> "hashfail"
-    [] f \in {"valCLen", "valComp"} -> "eof"                 \* a damaged compressed record decodes short (EOF) or to other bytes
+    [] f \in {"valCLen", "valComp"} -> (CASE cls = "decSame" -> "same" [] cls = "decEof" -> "eof" [] OTHER -> "hashfail")
     [] OTHER -> "same"
 
 \* precedence when two alterations meet in one dereference
@@ -192,7 +200,7 @@ Rank(r) == CASE r = "zero" -> 6 [] r = "idpanic" -> 5 [] r = "iderr" -> 4 [] r =
 JoinRead(r1, r2) == IF Rank(r1) >= Rank(r2) THEN r1 ELSE r2
 
 ValueOutcome(path, shape, r) ==
-  CASE r = "same" -> Inv("same bytes dereferenced")
+  CASE r = "same" -> Inv("same-bytes")
     [] r = "hashfail" -> Det("ValueHash")
     [] r = "iderr" -> Det("VLogId")
     [] r = "idpanic" -> Unc(RVLogId)
@@ -208,8 +216,8 @@ AsSingles(a) == IF a = <<"clogdup", "entry">> THEN {<<"cTxOff", "retarget">>, <<
                 ELSE {a}
 Expand(as) == UNION {AsSingles(a) : a \in as}
 
-\* all paths at once (the path-independent part is evaluated once); result: one outcome per element of Paths
-Outcomes(c, pos, shape, as0) ==
+\* outcome per path of ps (the path-independent part is evaluated once; paths are evaluated on demand)
+Outcomes(c, pos, shape, as0, ps) ==
   LET as == Expand(as0)
       dup == <<"cAlh", "dup">> \in as
       pes == {<<a, ParseEffect(c, a[1], a[2])>> : a \in as}
@@ -229,25 +237,28 @@ Outcomes(c, pos, shape, as0) ==
       One(path) ==
         LET openLast == path \in {"Open", "IndexRebuild"} /\ pos = "last"      \* OpenWith checks on the last commit-log entry
         IN
-        IF ~RecordRead(path, pos) THEN Inv("Open reads only the last record")
+        IF ~RecordRead(path, pos) THEN Inv("open-reads-last-only")
         ELSE IF retarget # {} THEN
                \* another tx's valid record is parsed instead; alterations of this tx's record are not even read
                IF openLast /\ ~dup THEN Det("CLogAlh")
                ELSE IF openLast THEN Unc(RBinding)
-               ELSE IF path = "TxReader" THEN Det("PrevAlh")
-               ELSE IF path = "ReadTxEntry" THEN Det("KeyLookup")
+               \* a reader checks the chain from its second read on (ascending readers start at tx 1, descending at the last)
+               ELSE IF path = "TxReader" /\ pos = "inner" THEN Det("PrevAlh")
+               \* (ReadTxEntry finds the key or not in the other record: content dependent, no check)
                ELSE Unc(RBinding)
         ELSE IF overrunFirst THEN Unc(ROverrun)
         ELSE IF dets # {} THEN Det(firstDet[2].by)
         ELSE IF openLast /\ sizeUp THEN Det("TxLogSize")
         ELSE IF openLast /\ calh THEN Det("CLogAlh")
         ELSE IF vals = {} \/ ~ValueRead(path)
-             THEN (IF locs # {} /\ EntriesReturned(path) THEN Unc(RLocator) ELSE Inv("not read on this path, or same decoded content"))
+             THEN (IF locs # {} /\ EntriesReturned(path) /\ ~AcceptLocators THEN Unc(RLocator) ELSE Inv("unread-or-same"))
              ELSE ValueOutcome(path, shape, r)
-  IN <<One(Paths[1]), One(Paths[2]), One(Paths[3]), One(Paths[4]), One(Paths[5]), One(Paths[6]), One(Paths[7]), One(Paths[8]), One(Paths[9])>>
+  IN [p \in ps |-> One(p)]
 
-PathIdx(p) == CHOOSE i \in 1..Len(Paths) : Paths[i] = p
-Outcome(c, pos, shape, as0, path) == Outcomes(c, pos, shape, as0)[PathIdx(path)]
+Outcome(c, pos, shape, as0, path) == Outcomes(c, pos, shape, as0, {path})[path]
+OutcomeSeq(c, pos, shape, as0) ==
+  LET f == Outcomes(c, pos, shape, as0, PathSet)
+  IN <<f[Paths[1]], f[Paths[2]], f[Paths[3]], f[Paths[4]], f[Paths[5]], f[Paths[6]], f[Paths[7]], f[Paths[8]], f[Paths[9]]>>
 
 -----------------------------------------------------------------------------
 (* the matrix written for the harness *)
@@ -255,7 +266,7 @@ CfgSeq == SetToSeq(CfgNames)
 Ctx == {<<c, pos, shape>> : c \in CfgNames, pos \in Positions, shape \in Shapes}
 
 Row(c, pos, shape, as, altseq) ==
-  LET o == Outcomes(c, pos, shape, as)
+  LET o == OutcomeSeq(c, pos, shape, as)
   IN [cfg |-> c, pos |-> pos, shape |-> shape, alts |-> altseq,
       exp |-> <<o[1].exp, o[2].exp, o[3].exp, o[4].exp, o[5].exp, o[6].exp, o[7].exp, o[8].exp, o[9].exp>>,
       by  |-> <<o[1].by, o[2].by, o[3].by, o[4].by, o[5].by, o[6].by, o[7].by, o[8].by, o[9].by>>]
@@ -274,22 +285,18 @@ PairKeys == UNION {{<<x[1], x[2], x[3], PairAlts(x[1], fg)>> : fg \in FieldPairs
 AllKeys == SingleKeys \cup CompoundKeys \cup PairKeys
 KeyAlts(k) == {k[4][i] : i \in 1..Len(k[4])}
 RowOf(k) == Row(k[1], k[2], k[3], KeyAlts(k), k[4])
-RowsOf(keys) == LET ks == SetToSeq(keys) IN [i \in 1..Len(ks) |-> RowOf(ks[i])]
+RowsOf(keys) == FoldSet(LAMBDA k, acc : Append(acc, RowOf(k)), <<>>, keys)    \* an evaluated tuple (a lazy function is re-evaluated by the serialiser)
 
-CountWhere(keys, P(_)) == FoldSet(LAMBDA k, acc : acc + (LET o == Outcomes(k[1], k[2], k[3], KeyAlts(k)) IN Cardinality({i \in 1..Len(Paths) : P(o[i])})), 0, keys)
-CountExp(keys, e) == CountWhere(keys, LAMBDA o : o.exp = e)
 Reasons == {RLocator, RVLenZero, ROverrun, RBinding, RVLogId, REofN1, REofNN}
-ReasonCount(keys, why) == CountWhere(keys, LAMBDA o : o.exp = "UNCOVERED" /\ o.by = why)
 
+\* (cells per expectation and candidate cells per reason are counted by checks/C09.py from the written rows)
 WriteMatrix ==
   /\ PrintT(<<"rows", Cardinality(SingleKeys), Cardinality(CompoundKeys), Cardinality(PairKeys)>>)
-  /\ PrintT(<<"cells", "detected", CountExp(AllKeys, "detected"), "invisible", CountExp(AllKeys, "invisible"), "UNCOVERED", CountExp(AllKeys, "UNCOVERED")>>)
-  /\ \A why \in Reasons : PrintT(<<"candidates", why, ReasonCount(AllKeys, why)>>)
-  /\ (OutFile = "" \/ JsonSerialize(OutFile, [paths |-> Paths, seed |-> Seed,
+  /\ (JsonSerialize(OutFile, [paths |-> Paths, seed |-> Seed,
           fix |-> [vLenZero |-> FixVLenZero, txBinding |-> FixTxBinding, mdBounds |-> FixMdBounds, vLogBound |-> FixVLogBound, exportEof |-> FixExportEof],
           singles |-> RowsOf(SingleKeys), compounds |-> RowsOf(CompoundKeys), pairs |-> RowsOf(PairKeys)]))
 
-ASSUME WriteMatrix
+ASSUME OutFile = "" \/ WriteMatrix
 
 -----------------------------------------------------------------------------
 (* (c) the machine *)
@@ -299,7 +306,7 @@ vars == <<stage, cfg, pos, shape, alts, path, outcome>>
 AltUniverse(c) == AllAlts(c) \cup Compounds
 
 Init == /\ stage = "pristine" /\ cfg \in CfgNames /\ pos \in Positions /\ shape \in Shapes
-        /\ alts = {} /\ path = "-" /\ outcome = Inv("nothing altered")
+        /\ alts = {} /\ path = "-" /\ outcome = Inv("unread-or-same")
 
 Alter(a) == /\ stage \in {"pristine", "altered"}
             /\ Cardinality(alts) < MaxAlts
